@@ -3,7 +3,7 @@
    print_seg, print_td, print_dt, join) are defined in the proof files. *)
 From Coq Require Import List ZArith NArith Bool.
 Import ListNotations.
-From TV Require Import Lib.Obs C44.Model C44.Run C44.Proofs1 C44.Proofs2 C44.Proofs3 C44.Proofs4 C44.Proofs5.
+From TV Require Import Lib.Obs C44.Model C44.Run C44.Src C44.Proofs1 C44.Proofs2 C44.Proofs3 C44.Proofs4 C44.Proofs5 C44.Proofs6 C44.Proofs7 Gen.C44_src Gen.C44_equiv.
 Local Open Scope Z_scope.
 
 (* ---------------- str ---------------- *)
@@ -86,15 +86,43 @@ Theorem C44_multiple_generic : forall o (pr : value -> text) vs,
 Proof. exact opt_parse_multiple_generic. Qed.
 Print Assumptions C44_multiple_generic.
 
-(* ---------------- float (partial: integer-valued numerals) ---------------- *)
-(* full statement wanted: forall finite double v, parse_float (repr v) = v.  Proved:
-   integer numerals below 2^53 in every int-like spelling are read exactly. *)
-Theorem C44_float_integers_partial : forall w1 w2 s ds,
+(* ---------------- float ---------------- *)
+(* plain decimal notation  [ws][sign]ddd.ddd[ws]  (also "ddd." and ".ddd") is read as float_of_decimal of
+   its digits ... *)
+Theorem C44_float_decimal_notation : forall w1 w2 s ip fp,
+  all_true is_ws_num w1 -> all_true is_ws_num w2 -> digits ip -> digits fp -> (ip <> [] \/ fp <> []) ->
+  parse_float (w1 ++ sign_text s ++ (ip ++ 46%N :: fp) ++ w2)
+  = Some (float_of_decimal (neg_of s) (digits_val (ip ++ fp) 0) (- Z.of_nat (length fp))).
+Proof. exact parse_float_point. Qed.
+Print Assumptions C44_float_decimal_notation.
+
+(* ... which is round_pos of the exact rational mant / 10^k (sign applied afterwards) ... *)
+Theorem C44_float_value_is_rounded_decimal : forall neg mant k,
+  mant <> 0%N -> (k <= 400)%nat ->
+  float_of_decimal neg mant (- Z.of_nat k) =
+    let r := round_pos (Z.of_N mant) (10 ^ Z.of_nat k) in if neg then fl_neg r else r.
+Proof. exact float_of_decimal_fraction. Qed.
+Print Assumptions C44_float_value_is_rounded_decimal.
+
+(* ... and round_pos IS IEEE-754 binary64 round-to-nearest, ties-to-even, for every positive rational n/d:
+   the result q*2^ex is a valid double (subnormals included), in the right binade, no further than half an
+   ulp from n/d, even on a tie; infinity only at or above the overflow threshold (2^54-1)*2^970 *)
+Theorem C44_round_pos_is_correct_rounding : forall n d, 0 < n -> 0 < d ->
+  match round_pos n d with
+  | FFin q ex => valid_double q ex /\ binade_ok n d ex /\ nearest_even n d q ex
+  | FInf false => (2 ^ 54 - 1) * 2 ^ 970 * d <= n
+  | _ => False
+  end.
+Proof. exact round_pos_correct. Qed.
+Print Assumptions C44_round_pos_is_correct_rounding.
+
+(* integer numerals below 2^53 in every int-like spelling are read exactly *)
+Theorem C44_float_integers_exact : forall w1 w2 s ds,
   all_true is_ws_num w1 -> all_true is_ws_num w2 -> digits ds -> ds <> [] ->
   Z.of_N (digits_val ds 0) < two53 ->
   exists f, parse_float (w1 ++ sign_text s ++ ds ++ w2) = Some f /\ fl_is_int f (apply_sign s (digits_val ds 0)).
 Proof. exact parse_float_int. Qed.
-Print Assumptions C44_float_integers_partial.
+Print Assumptions C44_float_integers_exact.
 
 (* ---------------- timedelta ---------------- *)
 (* every representable timedelta, printed as "<days>d <seconds>s <micro>us", is read back *)
@@ -236,6 +264,43 @@ Theorem C44_config_right_type_stored : forall o v,
 Proof. exact opt_set_right_type. Qed.
 Print Assumptions C44_config_right_type_stored.
 
+(* ---------------- attribute assignment; wrong-typed values rejected element-wise ---------------- *)
+Theorem C44_setattr_unknown_option_raises : forall os name v bs,
+  lookup (normalize name) os = None -> set_loop os ((name, v) :: bs) = (os, Some EAttributeError).
+Proof. exact set_unknown. Qed.
+Print Assumptions C44_setattr_unknown_option_raises.
+
+Theorem C44_setattr_is_type_checked : forall os name v bs o,
+  lookup (normalize name) os = Some o ->
+  set_loop os ((name, v) :: bs) =
+    match opt_set o v with
+    | (o', Some e) => (update o' os, Some e)
+    | (o', None) => set_loop (update o' os) bs
+    end.
+Proof. exact set_step. Qed.
+Print Assumptions C44_setattr_is_type_checked.
+
+(* one wrong-typed element anywhere in the list is enough (the seeded change C44_2 broke this) *)
+Theorem C44_list_rejected_elementwise : forall o l x,
+  o_multiple o = true -> In x l -> is_none x = false -> inst (o_ty o) x = false ->
+  opt_set o (VList l) = (o, Some EError).
+Proof. exact opt_set_list_elementwise. Qed.
+Print Assumptions C44_list_rejected_elementwise.
+
+Theorem C44_list_accepted_when_all_elements_typed : forall o l,
+  o_multiple o = true -> (forall x, In x l -> is_none x = true \/ inst (o_ty o) x = true) ->
+  opt_set o (VList l) = (set_value o (VList l), None).
+Proof. exact opt_set_list_ok. Qed.
+Print Assumptions C44_list_accepted_when_all_elements_typed.
+
+(* over any sequence of command lines / config files / assignments on a freshly defined parser: every
+   config file or run of assignments that completed bound defined options to well-typed objects only *)
+Theorem C44_accepted_objects_are_well_typed : forall defs os ss os' outs,
+  define_all [] defs = Some os -> run_sources os ss = (os', outs) ->
+  accepted_ok defs ss (map outcome_obs outs) = true.
+Proof. exact accepted_sources_well_typed. Qed.
+Print Assumptions C44_accepted_objects_are_well_typed.
+
 (* ---------------- unset options keep their defaults ---------------- *)
 (* over any sequence of command lines / config files (including ones that raise) *)
 Theorem C44_unmentioned_option_untouched : forall os ss k,
@@ -253,3 +318,20 @@ Print Assumptions C44_unset_options_keep_defaults.
 Theorem C44_model_satisfies_checker : forall i, check_case i (run_case i) = true.
 Proof. exact check_case_model. Qed.
 Print Assumptions C44_model_satisfies_checker.
+
+(* ---------------- tie to the source text (regenerated from tornado/options.py on every run) ---------------- *)
+Theorem C44_source_tables_are_the_model's :
+  src_bool_true = bool_true_words /\ src_bool_false = bool_false_words
+  /\ src_dt_formats = datetime_formats
+  /\ (forall u, unit_factor_src u = unit_factor u).
+Proof. split; [apply src_bool_tables|]. split; [apply src_bool_tables|]. split; [exact src_formats|exact unit_factor_src_eq]. Qed.
+Print Assumptions C44_source_tables_are_the_model's.
+
+Theorem C44_source_methods_unchanged :
+  src_float_pattern = expected_float_pattern /\ src_td_pattern = expected_td_pattern
+  /\ src_parse = expected_parse /\ src_set = expected_set /\ src_parse_datetime = expected_parse_datetime
+  /\ src_parse_timedelta = expected_parse_timedelta /\ src_parse_bool = expected_parse_bool
+  /\ src_parse_command_line = expected_parse_command_line /\ src_parse_config_file = expected_parse_config_file
+  /\ src_setattr = expected_setattr /\ src_normalize_name = expected_normalize_name.
+Proof. repeat split; reflexivity. Qed.
+Print Assumptions C44_source_methods_unchanged.
